@@ -66,6 +66,12 @@ def instances(tier: str) -> list[dict]:
     for verb, direction, exc in (SHAPES if tier == "thorough" else SHAPES[::4]):
         ls = LayerSpec(layers, verb, "access" if direction == "import" else "accessed", exc, "L0", ("L1",))
         add(N4, ("layer", ls.as_json()), ls.label())
+    # a package and one of its own sub packages listed in DIFFERENT layers: whatever the library makes of a module below
+    # both (today: LayerMismatch), it must not depend on how the set of candidate layers is iterated
+    nested_layers = (("L0", "names", ("a",)), ("L1", "names", ("a.x",)), ("L2", "names", ("b",)))
+    for verb, direction, exc, subj, obj in (("should_not", "import", False, "L0", "L1"), ("should", "import", False, "L2", "L1"), ("should_only", "import", False, "L0", "L2"), ("should_not", "imported", True, "L1", "L2")):
+        ls = LayerSpec(nested_layers, verb, "access" if direction == "import" else "accessed", exc, subj, (obj,))
+        add(NC, ("layer", ls.as_json()), "nested layers " + ls.label())
     # (a diagram generates a dozen rules; the symbolic relation is a window of the four imports the drawn arrows and
     # one undrawn pair speak about, every other import absent)
     dwin = [["p.a", "p.c"], ["p.b", "p.c"], ["p.c", "p.a"], ["p.a", "p.b"]]
